@@ -35,6 +35,10 @@ def main(args):
         good = bool(r.violated) and not r.error
         log("[selftest] negative %-28s %-45s -> %s (%d states, %.1fs)" % (cfg, what, "counterexample " + str(r.violated) if good else "NO COUNTEREXAMPLE", r.distinct, r.wall))
         ok = ok and good
+    # the inductive invariant of ResourcesInd.tla must NOT be inductive for the defective Close order (release before the compactor is joined)
+    st, w, tail = common.apalache("ResourcesInd.tla", "IndInit", "IndInv", 1, "NextU", "ConstInitNeg")
+    log("[selftest] negative ResourcesInd.tla with ReleaseBeforeJoin = TRUE: inductive step -> %s (%.1fs)" % (st, w))
+    ok = ok and st == "violated"
     # binding: a real white-box trace, then corrupt it
     binary = common.build_harness()
     rng = random.Random(7)
